@@ -197,8 +197,8 @@ pub fn plan(id: &str) -> Option<Plan> {
         "C09" => Plan {
             id: "C09",
             level: "fault_enumeration",
-            profiles: vec![ORA, ORA_F, MKT_F],
-            quick_runs: 1200,
+            profiles: vec![ORA, ORA_F, MKT_F, ADM],
+            quick_runs: 1600,
             thorough_runs: 30_000,
             rule: "oracle-fault profile: 16 Pyth / 12 Switchboard / fixed fault kinds (staleness at max_age -1/0/+1, confidence at 0 / max boundary / clamp region / over max, zero / negative / out-of-range price, partial verification, wrong discriminator, truncated, wrong owner, EMA divergence, omitted/misplaced/surplus oracle accounts) placed on banks someone holds a position in, then an operation depending on that price; after every oracle write and every clock advance the real price adapter is executed on a fork (pulse_bank_price_cache) and its verdict and value compared with the reference; one evaluation = one adapter probe or one judged borrow/withdraw/liquidation/bankruptcy; distinct = oracle kind x reference classification x verdict x trigger",
         },
